@@ -272,21 +272,25 @@ def pvLen (v : PVals) : Option Nat :=
   | .dense a => a.len?
   | .obj es => some es.length
 
+/-- every entry of the mask is set (`values[~missing]` is then empty) -/
+def allMissing (m : Option NdArr) : Bool :=
+  match m with
+  | some m => m.flat.all (fun v => v = .b true)
+  | none => false
+
+/-- `np.min`/`np.max` over the non-missing values of a dense axis property: nothing to do on an empty
+one; TypeError (UFuncTypeError) on strings; ValueError on a zero-size reduction -/
+def axisMinMaxDense (a : NdArr) (missing : Option NdArr) : Outcome Unit :=
+  if a.len? = none then throw .typeError
+  else if a.len? = some 0 then pure ()
+  else if a.dtype = .str then throw .typeError
+  else if allMissing missing = true ∨ a.flat.isEmpty = true then throw .valueError
+  else pure ()
+
 /-- outcome of `compute_and_add_axis_min_max` for one axis that is present among the node properties -/
 def axisMinMaxOutcome (p : PropArr) : Outcome Unit :=
   match p.values with
-  | .dense a =>
-    match a.len? with
-    | none => throw .typeError
-    | some 0 => pure ()
-    | some _ =>
-      if a.dtype = .str then throw .typeError           -- UFuncTypeError ⊂ TypeError
-      else
-        let allMissing : Bool := match p.missing with
-          | some m => m.flat.all (fun v => v = .b true)
-          | none => false
-        if allMissing ∨ a.flat.isEmpty then throw .valueError   -- zero-size reduction
-        else pure ()
+  | .dense a => axisMinMaxDense a p.missing
   | .obj es => if es.isEmpty then pure () else throw (unmodelled "axis-object-array")
 
 def checkAxes (axes : Option (List String)) (nodeProps : Option Props) : Outcome Unit :=
